@@ -61,6 +61,7 @@ def run(chk):
             injected = (k > 0 and req >= k)
             prob = None
             if " ro=0" in o: prob = "a read-only input URI was modified"
+            elif "!resid" in o: prob = "after a failed parse %s block(s) are still allocated before the caller's clean-up" % o.split("!resid=")[1].split()[0]
             elif bad != 0: prob = "a block was released twice or one was released that was never handed out"
             elif live != 0: prob = "%d block(s) still allocated after the caller's clean-up" % live
             elif injected and rc != "3": prob = "allocation request %d failed but the call returned %s instead of URI_ERROR_MALLOC" % (k, rc)
